@@ -45,6 +45,12 @@ type CancelCase struct {
 	DelayUS   int    `json:"delay_us"`
 	Get       bool   `json:"get,omitempty"` // h*-http: body-less GET binding
 	Opts      Opts   `json:"opts"`          // mux options installed on the server (see opts15.go)
+	// Target "proxy": the method is reached through RegisterConn; the scripted
+	// handler runs in a real grpc.Server behind larking's forwarder.
+	Target string `json:"target,omitempty"`
+	// HalfClose: the client half-closes after its K messages and the handler
+	// reads up to that end of stream before entering the state.
+	HalfClose bool `json:"half_close,omitempty"`
 }
 
 func (c *CancelCase) class() string {
@@ -56,7 +62,14 @@ func (c *CancelCase) class() string {
 	if !c.Opts.none() {
 		w = ":with=" + c.Opts.key()
 	}
-	return fmt.Sprintf("%s/%s:%s%s%s", c.Transport, c.Shape, c.State, t, w)
+	if c.HalfClose {
+		t = "+half-closed" + t
+	}
+	p := ""
+	if c.Target != "" {
+		p = c.Target + ":"
+	}
+	return fmt.Sprintf("%s%s/%s:%s%s%s", p, c.Transport, c.Shape, c.State, t, w)
 }
 
 const (
@@ -68,7 +81,8 @@ type cscn struct {
 	id      string
 	spec    *CancelCase
 	log     *evlog
-	gid     int64
+	gid     int64 // goroutine of the scripted handler
+	reqGid  int64 // goroutine serving the request inside larking
 	proceed chan struct{}
 	abort   chan struct{}
 }
@@ -76,7 +90,8 @@ type cscn struct {
 type cancelSvc struct {
 	std   *svc.Std
 	muSrv sync.Mutex
-	srvs  map[string]*wire.Server // one real server per option mask
+	srvs  map[string]*wire.Server // one real server per (target, option mask)
+	be    *backend                // lazily started back-end of the proxied target
 	scns  sync.Map
 	seq   int64
 }
@@ -87,20 +102,32 @@ func newCancelSvc() (*cancelSvc, error) {
 		return nil, err
 	}
 	s := &cancelSvc{std: std, srvs: map[string]*wire.Server{}}
-	_, err = s.serverFor(Opts{})
+	_, err = s.serverFor("", Opts{})
 	return s, err
 }
 
 // serverFor returns the real server whose mux has the given options. The mux
 // is mounted at "/" behind a boundary handler that only records when net/http
 // cancels the request context (what larking is told).
-func (s *cancelSvc) serverFor(o Opts) (*wire.Server, error) {
+func (s *cancelSvc) serverFor(target string, o Opts) (*wire.Server, error) {
 	s.muSrv.Lock()
 	defer s.muSrv.Unlock()
-	if srv := s.srvs[o.key()]; srv != nil {
+	k := target + "|" + o.key()
+	if srv := s.srvs[k]; srv != nil {
 		return srv, nil
 	}
-	mux, err := newMux(s.std, s.unary, s.stream, c15MuxOptions(o)...)
+	var mux *larking.Mux
+	var err error
+	if target == "proxy" {
+		if s.be == nil {
+			if s.be, err = startBackend(s.std, s.unary, s.stream); err != nil {
+				return nil, err
+			}
+		}
+		mux, err = s.be.newProxyMux(c15MuxOptions(o)...)
+	} else {
+		mux, err = newMux(s.std, s.unary, s.stream, c15MuxOptions(o)...)
+	}
 	if err != nil {
 		return nil, err
 	}
@@ -108,7 +135,7 @@ func (s *cancelSvc) serverFor(o Opts) (*wire.Server, error) {
 	if err != nil {
 		return nil, err
 	}
-	s.srvs[o.key()] = srv
+	s.srvs[k] = srv
 	return srv, nil
 }
 
@@ -117,6 +144,9 @@ func (s *cancelSvc) Close() {
 	defer s.muSrv.Unlock()
 	for _, srv := range s.srvs {
 		srv.Close()
+	}
+	if s.be != nil {
+		s.be.Close()
 	}
 }
 
@@ -135,6 +165,7 @@ func (s *cancelSvc) boundary(mux *larking.Mux) http.Handler {
 		var sc *cscn
 		if v, ok := s.scns.Load(r.Header.Get("X-Scn")); ok {
 			sc = v.(*cscn)
+			atomic.StoreInt64(&sc.reqGid, goid())
 			ctx := r.Context()
 			ret := make(chan struct{})
 			defer close(ret)
@@ -239,24 +270,38 @@ func (s *cancelSvc) stream(md protoreflect.MethodDescriptor, ss grpc.ServerStrea
 	// HTTP/1 is half-duplex: the handler reads everything it is going to read
 	// before its first write (and does not write at all when it is to block
 	// in a read afterwards).
+	// The same order is used when the handler is to read up to the client's
+	// half-close first.
 	h1 := strings.HasPrefix(c.Transport, "h1")
+	seq := h1 || (c.HalfClose && cs)
 	for pass := 0; pass < 2; pass++ {
 		for i := 0; i < c.K; i++ {
-			if cs && (!h1 || pass == 0) {
+			if cs && (!seq || pass == 0) {
 				if err := ss.RecvMsg(newChunk()); err != nil {
 					sc.log.log("setup-error", err, i)
 					return err
 				}
 			}
-			if sst && (!h1 || pass == 1) && !(h1 && cs && (c.State == "in-recv" || c.State == "between-recv")) {
+			if sst && (!seq || pass == 1) && !(h1 && cs && (c.State == "in-recv" || c.State == "between-recv")) {
 				if err := ss.SendMsg(small); err != nil {
 					sc.log.log("setup-error", err, i)
 					return err
 				}
 			}
 		}
-		if !h1 {
+		if !seq {
 			break
+		}
+		if pass == 0 && c.HalfClose && cs {
+			err := ss.RecvMsg(newChunk())
+			if err != io.EOF {
+				if err == nil {
+					err = errors.New("a message arrived instead of the client's end of stream")
+				}
+				sc.log.log("setup-error", err, c.K)
+				return err
+			}
+			sc.log.log("half-close-seen", nil, 0)
 		}
 	}
 	sc.log.log("at-state", nil, 0)
@@ -368,6 +413,9 @@ func plan(c *CancelCase) (n int, halfClose, partial bool) {
 		case "in-recv":
 			return 0, false, true
 		case "pre-recv":
+			if c.Target == "proxy" {
+				return 1, true, false // larking's forwarder needs the request to call the back-end
+			}
 			return 0, false, false
 		}
 		return 1, true, false
@@ -375,11 +423,14 @@ func plan(c *CancelCase) (n int, halfClose, partial bool) {
 	// cs, bidi
 	switch c.State {
 	case "pre-recv":
-		return 0, false, false
+		if c.Target == "proxy" {
+			return 1, c.HalfClose, false
+		}
+		return 0, c.HalfClose, false
 	case "in-recv":
 		return c.K, false, true
 	}
-	return c.K, false, false
+	return c.K, c.HalfClose, false
 }
 
 func (s *cancelSvc) startGRPCGo(sc *cscn, srv *wire.Server) (*cancelClient, error) {
@@ -601,7 +652,7 @@ func (s *cancelSvc) runScenario(c *CancelCase, onSlow func()) *cancelOutcome {
 	s.scns.Store(sc.id, sc)
 	defer s.scns.Delete(sc.id)
 
-	srv, err := s.serverFor(c.Opts)
+	srv, err := s.serverFor(c.Target, c.Opts)
 	if err != nil {
 		out.inconclusive = "server setup failed: " + err.Error()
 		return out
@@ -625,9 +676,16 @@ func (s *cancelSvc) runScenario(c *CancelCase, onSlow func()) *cancelOutcome {
 	}()
 
 	// 1. wait until the handler is in the wanted state
+	proxy := c.Target == "proxy"
+	// proxied and the client's (partial) first message never completes:
+	// larking's forwarder itself is the blocked receiver, no back-end call yet
+	fwdOnly := proxy && c.State == "in-recv" && (c.Shape == "unary" || c.Shape == "ss" || c.K == 0)
 	reached := func(ev []event) bool {
 		if index(ev, "setup-error", 0) >= 0 || index(ev, "handler-exit", 0) >= 0 {
 			return true
+		}
+		if fwdOnly {
+			return index(ev, "serve-enter", 0) >= 0
 		}
 		switch c.State {
 		case "pre-recv":
@@ -684,6 +742,9 @@ func (s *cancelSvc) runScenario(c *CancelCase, onSlow func()) *cancelOutcome {
 		out.Note = "released-before-cancel"
 		return out
 	}
+	if fwdOnly {
+		time.Sleep(20 * time.Millisecond) // let the forwarder reach its RecvMsg
+	}
 	if c.DelayUS > 0 {
 		time.Sleep(time.Duration(c.DelayUS) * time.Microsecond)
 	}
@@ -696,7 +757,16 @@ func (s *cancelSvc) runScenario(c *CancelCase, onSlow func()) *cancelOutcome {
 	close(sc.proceed)
 
 	// 3. wait for the release
-	done := func(ev []event) bool { return index(ev, "ctx-done", 0) >= 0 || index(ev, "handler-exit", 0) >= 0 }
+	// local: the handler's context is done. proxied: the back-end handler's
+	// context is done (if the back-end was called at all) and larking's request
+	// goroutine has returned from ServeHTTP.
+	done := func(ev []event) bool {
+		h := index(ev, "ctx-done", 0) >= 0 || index(ev, "handler-exit", 0) >= 0
+		if !proxy {
+			return h
+		}
+		return index(ev, "serve-return", 0) >= 0 && (h || index(ev, "entered", 0) < 0)
+	}
 	for {
 		if done(sc.log.snapshot()) {
 			break
@@ -735,9 +805,17 @@ func (s *cancelSvc) runScenario(c *CancelCase, onSlow func()) *cancelOutcome {
 	if !done(ev) {
 		// watchdog: the handler was not released
 		dump := fullDump()
-		block := goroutineBlock(dump, atomic.LoadInt64(&sc.gid))
+		gid := atomic.LoadInt64(&sc.gid)
+		if proxy {
+			gid = atomic.LoadInt64(&sc.reqGid) // the forwarder runs on the request goroutine
+		}
+		block := goroutineBlock(dump, gid)
 		out.Goroutine = block
 		within, blockedIn := insideLarking(block)
+		if proxy && index(ev, "serve-return", 0) >= 0 {
+			// larking returned but the back-end call was left running
+			within = true
+		}
 		missing := "handler-ctx-not-cancelled"
 		// the stream call, if any, that was entered and has not returned
 		last := ""
@@ -754,6 +832,17 @@ func (s *cancelSvc) runScenario(c *CancelCase, onSlow func()) *cancelOutcome {
 			missing = "recv-not-released"
 		case "send-enter":
 			missing = "send-not-released"
+		}
+		if proxy {
+			hDone := index(ev, "ctx-done", 0) >= 0 || index(ev, "handler-exit", 0) >= 0
+			switch {
+			case index(ev, "serve-return", 0) < 0 && !hDone && index(ev, "entered", 0) >= 0:
+				missing = "forwarder-blocked+backend-ctx-not-cancelled"
+			case index(ev, "serve-return", 0) < 0:
+				missing = "forwarder-blocked"
+			default:
+				missing = "backend-ctx-not-cancelled"
+			}
 		}
 		if told && within {
 			add("not-released:"+missing, fmt.Sprintf("net/http cancelled the request context (%s) but after %v the handler is still not released (%s; blocked below a larking frame: %v)", ev[iReq].Err, releaseWatchdog, missing, blockedIn))
@@ -876,6 +965,42 @@ func (c *CancelCase) normalise() {
 	if c.MsgSize == 1 {
 		c.MsgSize = 2
 	}
+	csShape := c.Shape == "cs" || c.Shape == "bidi"
+	if !csShape || c.State == "in-recv" {
+		c.HalfClose = false
+	}
+	if c.Target == "proxy" && csShape {
+		// HTTP/1 is half-duplex also for larking's forwarder, which reads the
+		// client concurrently with writing the back-end's replies: the
+		// back-end waits for the end of the request before it sends
+		if h1 && c.State != "in-recv" {
+			c.HalfClose = true
+		}
+		// the forwarder calls the back-end once it has the first message (or
+		// the client's half-close)
+		if !c.HalfClose && c.State != "in-recv" && c.State != "pre-recv" && c.K == 0 {
+			c.K = 1
+		}
+	}
+	if c.HalfClose && c.K == 0 && strings.HasSuffix(c.Transport, "-http") {
+		c.K = 1 // an empty transcoded body still delivers one message built from the URL
+	}
+}
+
+// proxyMatrix: the cells of the cancellation matrix for a method reached
+// through RegisterConn, plus the states after the client's half-close.
+func proxyMatrix() []CancelCase {
+	var out []CancelCase
+	for _, c := range cancelMatrix() {
+		c.Target = "proxy"
+		out = append(out, c)
+		if (c.Shape == "cs" && c.State == "ctx-wait") || (c.Shape == "bidi" && (c.State == "ctx-wait" || c.State == "between-send" || c.State == "in-send")) {
+			d := c
+			d.HalfClose = true
+			out = append(out, d)
+		}
+	}
+	return out
 }
 
 func runCancels(r *mon.Run) {
@@ -913,14 +1038,26 @@ func runCancels(r *mon.Run) {
 		}
 	}
 	cases = append(cases, extra...)
+	for _, c := range cancelMatrix() {
+		if (c.Shape == "cs" || c.Shape == "bidi") && c.State == "ctx-wait" {
+			c.HalfClose = true
+			cases = append(cases, c)
+		}
+	}
+	nLocal := len(cases)
+	cases = append(cases, proxyMatrix()...)
 	// every cell under the all-off and the all-on option mask plus, in
-	// rotation, one of the other masks (quick) or under every mask (thorough)
+	// rotation, one of the other masks (quick) or under every mask (thorough);
+	// proxied cells under all-off and all-on (quick)
 	masks := c15Masks()
 	cells := cases
 	cases = nil
 	others := []int{4, 1, 2, 5, 3, 6, 8}
 	for i, c := range cells {
 		pick := []int{0, others[i%len(others)], 7}
+		if i >= nLocal {
+			pick = []int{0, 7}
+		}
 		if r.Thorough() {
 			pick = []int{0, 1, 2, 3, 4, 5, 6, 7, 8}
 		}
@@ -935,6 +1072,10 @@ func runCancels(r *mon.Run) {
 	for len(cases) < total {
 		c := cells[rng.Intn(base)]
 		c.Opts = masks[rng.Intn(len(masks))]
+		if rng.Intn(3) == 0 {
+			c.Target = "proxy"
+		}
+		c.HalfClose = rng.Intn(4) == 0
 		c.K = rng.Intn(5)
 		c.MsgSize = sizes[rng.Intn(len(sizes))]
 		c.Timeout = rng.Intn(3) == 0
@@ -966,12 +1107,12 @@ func runCancels(r *mon.Run) {
 		wmu.Lock()
 		defer wmu.Unlock()
 		for _, w := range wedges {
-			if w.transport == c.Transport && w.o.coveredBy(c.Opts) {
+			if w.transport == c.Target+c.Transport && w.o.coveredBy(c.Opts) {
 				return true, false
 			}
 		}
 		for _, w := range suspects {
-			if w.transport == c.Transport && w.o.coveredBy(c.Opts) {
+			if w.transport == c.Target+c.Transport && w.o.coveredBy(c.Opts) {
 				return false, true
 			}
 		}
@@ -981,7 +1122,7 @@ func runCancels(r *mon.Run) {
 		c := &cases[i]
 		out := s.runScenario(c, func() {
 			wmu.Lock()
-			suspects[i] = wedge{c.Transport, c.Opts}
+			suspects[i] = wedge{c.Target + c.Transport, c.Opts}
 			wmu.Unlock()
 		})
 		wmu.Lock()
@@ -1014,7 +1155,7 @@ func runCancels(r *mon.Run) {
 		for _, v := range out.vs {
 			if strings.Contains(v.key, ":not-released:") {
 				wmu.Lock()
-				wedges = append(wedges, wedge{c.Transport, c.Opts})
+				wedges = append(wedges, wedge{c.Target + c.Transport, c.Opts})
 				wmu.Unlock()
 			}
 			r.Violate(v.key, v.what, map[string]any{"part": "cancel", "case": c, "events": out.Events, "goroutine": out.Goroutine})
